@@ -76,6 +76,25 @@ func c13Judge(c *Ctx, cs *Case) {
 		c13Repl(c, cs)
 		return
 	}
+	if cs.Mode == "chunks" {
+		whole := RunCLI(CLIOpts{Bin: c.Bin, Src: cs.Src, Stdin: cs.Stdin, Dir: c.Scratch})
+		c.Count("cli_runs", 1)
+		for i, chunks := range [][]string{strings.SplitAfter(cs.Stdin, "\n"), {cs.Stdin[:3], cs.Stdin[3:9], cs.Stdin[9:]}, {cs.Stdin[:len(cs.Stdin)/2], cs.Stdin[len(cs.Stdin)/2:]}, {cs.Stdin}} {
+			o := RunCLI(CLIOpts{Bin: c.Bin, Src: cs.Src, Chunks: chunks, ChunkGap: 150 * time.Millisecond, Dir: c.Scratch})
+			c.Count("cli_runs", 1)
+			if o.TimedOut || whole.TimedOut {
+				c.Inconclusive("CLI watchdog")
+				return
+			}
+			if o.Stdout != whole.Stdout || o.Exit != whole.Exit || firstDiagRaw(o.Stderr) != firstDiagRaw(whole.Stderr) {
+				c.Violate(Violation{Why: fmt.Sprintf("the same program on the same input bytes behaves differently when the input arrives in pieces (chunking %d)", i), Expected: describeObs(whole), Observed: describeObs(o), Signature: "nondeterministic:stdin-chunking"})
+				return
+			}
+		}
+		c.Count("chunked_runs", 4)
+		c.Nontrivial(cs.Src)
+		return
+	}
 	R := c.N(8, 40)
 	RP := c.N(4, 15)
 	var base *Obs
@@ -319,6 +338,15 @@ func c13Run(c *Ctx) {
 			Var("seen", "0"), For(Var("j", "0"), "j < 1500", "j = j + 1", "{ "+Var("t", "s + j")+" "+If("j % 100 == 0", "{ "+Print(`"progress " + j`)+" }")+" seen = seen + 1; }"), Print("seen"), Print(BI("len", "keep")))
 		c13Judge(c, &Case{Gen: "memory-hungry", Mode: "cli", Src: big, X: map[string]string{"nontrivial": "1", "cli_only": "1"}})
 	}
+	// 2f. how the input arrives (all at once, line by line, in odd pieces) must not show
+	for _, prog := range []string{
+		Lines(Var("a", BI("input", `"name: "`)), Var("b", BI("input", `"city: "`)), Var("cc", BI("input", `"year: "`)), Print(`a + "/" + b + "/" + cc`)),
+		Lines(Var("t", `""`), For(Var("i", "0"), "i < 3", "i = i + 1", "{ t = t + "+BI("input", `"> "`)+"; "+Print("t")+" }"), Print(BI("input")), Print(`"end"`)),
+	} {
+		if c.Mine() {
+			c13Judge(c, &Case{Gen: "stdin-chunking", Mode: "chunks", Src: prog, Stdin: "alice\ndhaka\n1999\nlast\n", X: nt})
+		}
+	}
 	// 2d. texts with several lexical / syntax errors on different lines: which diagnostic comes first
 	{
 		r = c.Rand("multi-error")
@@ -349,7 +377,7 @@ func c13Run(c *Ctx) {
 	// to built-in names, every kind of error) in between
 	{
 		pool := c20Pool()
-		extra := []string{B["len"] + " = 5;", B["abs"] + " = nil;", B["max"] + " = " + B["min"] + ";", B["round"] + " = 1; " + B["len"] + " = 2;", Var("v", "1") + " v = 2;", Fun("f", "", " "+Ret("1")+" "), "f = nil;"}
+		extra := []string{Print("nope")[:len(Print("nope"))-1], "nope", "{ " + Print("1 / 0"), B["len"] + " = 5;", B["abs"] + " = nil;", B["max"] + " = " + B["min"] + ";", B["round"] + " = 1; " + B["len"] + " = 2;", Var("v", "1") + " v = 2;", Fun("f", "", " "+Ret("1")+" "), "f = nil;"}
 		var selfs []string
 		for _, l := range pool {
 			if l.self && l.kind != "long" && l.kind != "empty" && l.kind != "declaration" {
@@ -416,6 +444,6 @@ func init() {
 		Assumptions: []string{"a k-entry map iteration repeats its order with probability about 1/k per execution; a 3-entry dependency escapes 8 comparisons with probability < 1e-3 and 40 with < 1e-18"},
 		Run:         c13Run,
 		Judge:       c13Judge,
-		MustCount:   func(c *Ctx) []string { return []string{"gen:shipped-examples", "gen:map-order-sensitive", "gen:general-programs", "inprocess_executions", "process_executions", "programs_clean", "programs_failing", "initialiser_order_checked", "gen:several-static-errors", "repl_sessions", "repl_line_repetitions"} },
+		MustCount:   func(c *Ctx) []string { return []string{"gen:shipped-examples", "gen:map-order-sensitive", "gen:general-programs", "inprocess_executions", "process_executions", "programs_clean", "programs_failing", "initialiser_order_checked", "gen:several-static-errors", "chunked_runs", "repl_sessions", "repl_line_repetitions"} },
 	})
 }
